@@ -130,6 +130,22 @@ decreasing_by
   have := dropRun_length col code rest
   simp; omega
 
+/-- `encodeLine` with the one subtraction of the loop that can panic in Rust made explicit:
+`let shift = column - offset;` on `usize` — `none` = overflow panic.  It never happens for the vectors the
+band assembly builds (`SurfProofs.C12.C12_no_underflow`), which is why `encodeLine` may use `Nat` subtraction. -/
+def encodeLine? (offset : Nat) : List (Nat × Nat) → Option (List Tok)
+  | [] => some []
+  | (col, code) :: rest =>
+    if col < offset then none else
+    let reps := 1 + runLen col code rest
+    match encodeLine? (col + reps) (dropRun col code rest) with
+    | none => none
+    | some ts => some (emit (col - offset) 63 ++ emit reps code ++ ts)
+termination_by l => l.length
+decreasing_by
+  have := dropRun_length col code rest
+  simp; omega
+
 def Tok.bytes : Tok → List Nat
   | .lit c => [c]
   | .rep n c => [33] ++ decimal n ++ [c]
@@ -190,6 +206,9 @@ def encodeN (pal : List RGB) (q : QImg) (order : Nat → List Nat) : List Nat :=
     ++ (List.range (bandCount q.h)).flatMap (fun b => encodeBand q b (order b))
     ++ [0x1b, 92]
 
+/-- `let height = (img.height() / 6) * 6;` -/
+def truncHeight (h : Nat) : Nat := h / 6 * 6
+
 /-- The bytes `draw` writes for `(palette, qimg)` when the band maps iterate in `order`. -/
 def encode (pal : List RGB) (q : QImg) (order : Nat → List Nat) : List UInt8 :=
   (encodeN pal q order).map UInt8.ofNat
@@ -217,18 +236,32 @@ def imageCacheSize : Nat := SurfModel.Generated.SixelCache.imageCacheSize
 structure Handler where
   imgs : List (Nat × List UInt8)
   size : Nat
+  /-- the budget the eviction loop compares `size` with: `IMAGE_CACHE_SIZE` for every handler made by
+  `SixelImageHandler::new` (the verification hook `verif_c12::with_cache_size` makes others) -/
+  cap : Nat
   deriving Repr
 
-def Handler.new : Handler := ⟨[], 0⟩
+def Handler.new : Handler := ⟨[], 0, imageCacheSize⟩
 
-/-- `while self.size > IMAGE_CACHE_SIZE { pop_lru }` on the list with the least recently used entry first -/
-def evictLru : List (Nat × List UInt8) → Nat → List (Nat × List UInt8) × Nat
+/-- `verif_c12::with_cache_size` -/
+def Handler.withCap (cap : Nat) : Handler := ⟨[], 0, cap⟩
+
+/-- `while self.size > cache_size { pop_lru; self.size -= lru_image.len() }` on the list with the least
+recently used entry first (`size - lru.length` cannot underflow: `SurfProofs.C12.C12_no_underflow`) -/
+def evictLru (cap : Nat) : List (Nat × List UInt8) → Nat → List (Nat × List UInt8) × Nat
   | [], size => ([], size)
   | (k, lru) :: rest, size =>
-    if size > imageCacheSize then evictLru rest (size - lru.length) else ((k, lru) :: rest, size)
+    if size > cap then evictLru cap rest (size - lru.length) else ((k, lru) :: rest, size)
 
-def evict (imgs : List (Nat × List UInt8)) (size : Nat) : List (Nat × List UInt8) × Nat :=
-  let (kept, size) := evictLru imgs.reverse size
+/-- `evictLru` with `self.size -= lru_image.len()` as the checked `usize` subtraction it is: `none` = panic -/
+def evictLru? (cap : Nat) : List (Nat × List UInt8) → Nat → Option (List (Nat × List UInt8) × Nat)
+  | [], size => some ([], size)
+  | (k, lru) :: rest, size =>
+    if size > cap then (if size < lru.length then none else evictLru? cap rest (size - lru.length))
+    else some ((k, lru) :: rest, size)
+
+def evict (cap : Nat) (imgs : List (Nat × List UInt8)) (size : Nat) : List (Nat × List UInt8) × Nat :=
+  let (kept, size) := evictLru cap imgs.reverse size
   (kept.reverse, size)
 
 /-- `draw`: a hit writes the cached bytes (and makes the entry most recently used); a miss encodes,
@@ -237,8 +270,8 @@ def Handler.draw (hd : Handler) (key : Nat) (enc : List UInt8) : List UInt8 × H
   match hd.imgs.lookup key with
   | some bytes => (bytes, { hd with imgs := (key, bytes) :: hd.imgs.filter (fun e => e.1 != key) })
   | none =>
-    let (imgs, size) := evict ((key, enc) :: hd.imgs) (hd.size + enc.length)
-    (enc, ⟨imgs, size⟩)
+    let (imgs, size) := evict hd.cap ((key, enc) :: hd.imgs) (hd.size + enc.length)
+    (enc, ⟨imgs, size, hd.cap⟩)
 
 /-! ## Reference sixel interpreter -/
 
@@ -439,6 +472,11 @@ def sixel (bytes : List UInt8) : Option Raster := sixelN (bytes.map UInt8.toNat)
   `ok <w> <h> <all|holes> <outside> <regs≤256> <3 bytes per pixel hex>` or `none`
 * `sum <hex>` — the same without the pixels
 * `pre <r> <g> <b>` — the channel reduction applied before quantisation
+* `draw <w> <h> <pal hex> <q hex>` — `draw` on a cache miss for a view of `w × h` pixels whose truncated,
+  reduced image quantises to `(pal, q)`: nothing (`-`) when the view has no column or fewer than six rows,
+  else as `enc` with the height truncated to a multiple of six
+* `cache <budget> <key:len,…>` — the cache model with that budget on a sequence of draws: `h`/`m` and `size`
+  after every draw, then `| size key:len,…` (most recently used first)
 -/
 
 def chunk3 : List UInt8 → List RGB
@@ -476,6 +514,28 @@ def handle : List String → String
       | some r => showRaster r true
       | none => "none"
     | none => "bad-op"
+  | ["draw", w, h, pal, qs] =>
+    match w.toNat?, h.toNat?, Proto.unhex pal, Proto.unhex qs with
+    | some w, some h, some pal, some qs =>
+      let th := truncHeight h
+      if w = 0 ∨ th = 0 then Proto.hex []
+      else
+        let q : QImg := ⟨w, th, rowsOf w th (chunk2 qs)⟩
+        Proto.hex (encode (chunk3 pal) q (sortedOrder q))
+    | _, _, _, _ => "bad-op"
+  | ["cache", budget, ops] =>
+    match budget.toNat?, (if ops == "-" then some [] else (ops.splitOn ",").mapM fun o =>
+        match o.splitOn ":" with
+        | [k, l] => do pure ((← k.toNat?), (← l.toNat?))
+        | _ => none) with
+    | some budget, some ops =>
+      let (hd, trace) := ops.foldl (fun (acc : Handler × String) (op : Nat × Nat) =>
+        let hit := (acc.1.imgs.lookup op.1).isSome
+        let hd := (acc.1.draw op.1 (List.replicate op.2 0)).2
+        (hd, acc.2 ++ s!"{if hit then "h" else "m"}{hd.size} ")) (Handler.withCap budget, "")
+      let content := hd.imgs.map fun e => s!"{e.1}:{e.2.length}"
+      s!"{trace}| {hd.size} {if content.isEmpty then "-" else ",".intercalate content}"
+    | _, _ => "bad-op"
   | ["pre", r, g, b] =>
     match r.toNat?, g.toNat?, b.toNat? with
     | some r, some g, some b => let c := preReduce ⟨r, g, b⟩; s!"{c.r} {c.g} {c.b}"
